@@ -35,6 +35,15 @@ func scenarios(c *vlib.Ctx) []*slib.Scn {
 			}
 		}
 	}
+	// work launched before the module started, and a service worker that is in its restart back-off when the stop begins
+	for _, trig := range []string{"shutdown", "disable"} {
+		for _, graph := range []string{"single", "chain"} {
+			for _, k := range []string{"prep-worker", "service-backoff"} {
+				add(modules.C05Params{Graph: graph, Items: []string{k}, ItemPts: 1, StopFn: "plain", Trigger: trig}, bound)
+				add(modules.C05Params{Graph: graph, Items: []string{k, "worker"}, ItemPts: 0, StopFn: "none", Trigger: trig}, 2)
+			}
+		}
+	}
 	for _, trig := range []string{"shutdown", "disable"} {
 		add(modules.C05Params{Graph: "xsrc", Items: []string{"xhook"}, ItemPts: 1, StopFn: "plain", Trigger: trig}, bound)
 		add(modules.C05Params{Graph: "xsrc", Items: []string{"xhook"}, ItemPts: 0, StopFn: "none", Trigger: trig}, bound)
